@@ -226,6 +226,25 @@ def run(ctx):
                                "VerifPoint hooks + trace parser"]
     ctx.assumptions = ["OS-level faults are injected from outside (files, /dev/full); stdout-to-/dev/full is exercised through redirected outputs only",
                        "flush/close errors of redirected outputs at end of stream are modelled as verb failures"]
+    # the table of process-exit sites, regenerated from the tree under check; the theorems of C17/ExitSites.v are computed over it
+    from checks import c17_exitsites
+    ex_sites, rq_sites, us_sites = c17_exitsites.scan(str(REPO))
+    write_if_changed(GEN / "Gen_ExitSites.v", c17_exitsites.render(ex_sites, rq_sites, us_sites))
+    ctx.cov["exit_sites"] = {"os_exit": len(ex_sites), "exit_request": len(rq_sites), "usage_printed": len(us_sites)}
+    silent = [r for r in ex_sites + rq_sites if isinstance(r["code"], int) and r["code"] != 0 and not r["stderr_before"] and r["guard"] != "GUsagePrinted"]
+    silent += [r for r in us_sites if not r["stderr_before"]]
+    for r in silent:
+        # a site that ends the process with a non-zero status without having written to stderr
+        rep = {"class": "exit-site-without-stderr-diagnostic:%s:%s" % (r["file"], r["func"]), "site": r,
+               "what": "non-zero exit (or exit sentinel) with no write to os.Stderr before it in the same block"}
+        if r["file"].endswith("put_or_filter.go") and r["func"] == "NewTransformerPut":
+            st, out, err = mlr_run(ctx, ["-n", "put", "-W", "$y = x"], b"", timeout=60)
+            rep.update({"input": "mlr -n put -W '$y = x'", "observed": {"status": st, "stdout": out.decode("latin1"), "stderr": err.decode("latin1")},
+                        "expected": "exit 1 with the reason for exiting on stderr and nothing on stdout"})
+            if st == 1 and b"Exiting due to warnings" in out:
+                ctx.violation(rep)
+                continue
+        ctx.violation(rep, found_input=False)
     forbidden_gate(ctx, ["C04", "C17"])
     ok, why = check_props(ctx, "C17/Props.v", ["C04/Errors.vo", "C04/Harness.vo"])
     d = tempfile.mkdtemp(prefix="c17.", dir=str(CACHE))
